@@ -800,7 +800,7 @@ func RunNet(out string, seed int64, tier string) error {
 	ncases, steps := 4, 55
 	schemes := []string{crypto.DefaultSchemeID, crypto.UnchainedSchemeID}
 	if tier == "thorough" {
-		ncases, steps = 60, 110
+		ncases, steps = 30, 90
 		schemes = crypto.ListSchemes()
 	}
 	// (members, threshold, number of adversarial indices)
